@@ -79,7 +79,11 @@ func init() {
 		outs := make([]string, 128)
 		backs := make([]int, 128)
 		valids := make([]int, 128)
-		for f := 0; f < 128; f++ {
+		for k := 0; k < 128; k++ {
+			f := k
+			if n%2 == 1 { // odd numbers take the flag sets in descending order (what a process formats first varies)
+				f = 127 - k
+			}
 			b, err := roman.DefaultFormatter(nil, n, roman.Format(f))
 			if err != nil {
 				b = []byte("!error")
